@@ -173,7 +173,7 @@ impl Visit for TermV {
                 TermResult::Ids(ids(v.iter()))
             }
             Term::IntoSplitL => {
-                let mut t: SplitVec<Q::Item, Linear> = SplitVec::with_linear_growth(1);
+                let mut t: SplitVec<Q::Item, Linear> = SplitVec::with_linear_growth(14);
                 for x in <Q::Item as Item>::prefix(self.prefix) {
                     t.push(x);
                 }
